@@ -414,7 +414,7 @@ class Gen(object):
         intv = lambda: self.expr('int', self.maxdepth - 1)
         kinds = ['fcall_stmt', 'fcall_value', 'mix', 'classop', 'classop_value', 'bridge', 'bridge_assign', 'enum', 'const',
                  'bridge_value', 'ref_read']
-        kinds += ['udt_call']
+        kinds += ['udt_call', 'redeclare']
         if self.home != 'derived':
             kinds += ['param', 'param_if', 'udt_param']        # a derived attribute has no parameters
         la = self.live_insts('A')
@@ -465,6 +465,22 @@ class Gen(object):
             return assign_new('int', 'o', Bin('+', {'t': 'ocall', 'h': V(n), 'n': 'iop', 'ps': ps(k=intv())}, I(1)))
         if k == 'param':
             return assign_new('int', 'p', Bin('+', {'t': 'param', 'n': 'x'}, intv()))
+        if k == 'redeclare':
+            # a name declared in a nested block and declared again, with another type, after that block has closed
+            # (in a sibling branch and in the enclosing block)
+            held = {}
+
+            def first():
+                held['n'] = self.fresh('int', 'rd')
+                return [Assign(V(held['n']), I(r.randint(0, 9))), assign_new('int', 'rk', Bin('+', V(held['n']), I(1)))]
+
+            def sibling():
+                self.scopes[-1][held['n']] = 'bool'
+                return [Assign(V(held['n']), B(r.random() < 0.5)), If(V(held['n']), scoped(lambda: [assign_new('int', 'rj', I(2))]))]
+            a, b = scoped(first), scoped(sibling)
+            self.scopes[-1][held['n']] = 'str'
+            return [If(self.expr('bool', self.maxdepth), a, [], b), Assign(V(held['n']), Str('one')),
+                    assign_new('str', 'rs', Bin('+', V(held['n']), Str('!')))]
         if k in ('udt_param', 'udt_call'):
             # values of a user-defined type (Count over integer): the variable they declare, and what is computed from it
             src = {'t': 'param', 'n': 'cnt'} if k == 'udt_param' else {'t': 'fcall', 'n': 'tally', 'ps': ps(n=intv())}
@@ -800,6 +816,19 @@ class Gen(object):
                     'haswhere': True, 'w': Bin('==', sel, I(r.choice([0, 0, vals[-1]])))})
         out.append(If(Un('empty', V(g)), [{'t': 'create', 'v': g, 'k': 'B'}, Assign(Field(V(g), 'N'), I(9))]))
         out.append(fold_inst(g))
+        # for each runs once per member of the set as it was selected, also for a member deleted since
+        sd, ed, vd, cd = self.fresh('set:B', 's'), self.fresh('inst:B', 'e'), self.fresh('inst:B', 'd'), self.fresh('int', 'c')
+        out.append({'t': 'select_from', 'card': 'many', 'v': sd, 'k': 'B', 'haswhere': False, 'w': B(True)})
+        out.append({'t': 'select_from', 'card': 'any', 'v': vd, 'k': 'B', 'haswhere': True, 'w': Bin('==', sel, I(r.choice(vals)))})
+        out.append(Assign(V(cd), I(0)))
+        if r.random() < 0.5:
+            out.append(If(Un('not_empty', V(vd)), [{'t': 'delete', 'v': vd}]))
+            out.append({'t': 'for', 'v': ed, 's': sd, 'b': [Assign(V(cd), Bin('+', V(cd), I(1)))]})
+        else:
+            out.append({'t': 'for', 'v': ed, 's': sd, 'b': [
+                If(Bin('and', Bin('==', V(cd), I(0)), Un('not_empty', V(vd))), [{'t': 'delete', 'v': vd}]),
+                Assign(V(cd), Bin('+', V(cd), I(1)))]})
+        out.append(Assign(V(t), Bin('+', Bin('*', V(t), I(10)), V(cd))))
         out.append(Assign(Field(V(a), 'N'), V(t)))
         return out
 
